@@ -148,14 +148,19 @@ pub fn run(ctx: &'static Ctx) {
     pts.dedup();
     let full = !ctx.quick();
     let cnt = AtomicU64::new(0);
+    let diverged = AtomicU64::new(0);
+    let first_div = AtomicU64::new(u64::MAX);
     let do_n = |n: usize| {
         for named in [false, true] {
             let b = field_reserved(n, named);
             let e = field_entry_pkg(&b, named);
             check_exclusive(ctx, n, e, if named { "Field/Named" } else { "Field/Reserved" });
-            // the hook must agree byte for byte with what the public entry point emitted
+            // does the hook still speak for the public entry point? The property asks a field width only to decode to the width
+            // given (judged above), not to be these very bytes: a divergence is no violation, but the hook's sweep then says
+            // nothing about Field entries and the public entry point is swept over all 2^28 widths instead (below)
             if e != aml::verif_create_pkg_length(n, false).as_slice() {
-                ctx.violation_sized("pkglen:hook-binding", n as u64, || format!("Field entry width {} emits {} but the hook returns a different encoding", n, hex(e)), || json!({"family":"pkglen","form":"exclusive","via":"Field","n":n}));
+                diverged.fetch_add(1, Ordering::Relaxed);
+                first_div.fetch_min(n as u64, Ordering::Relaxed);
             }
         }
     };
@@ -173,8 +178,21 @@ pub fn run(ctx: &'static Ctx) {
             cnt.fetch_add(2, Ordering::Relaxed);
         });
     }
+    let mut swept_all = full;
+    if !full && diverged.load(Ordering::Relaxed) > 0 {
+        // binding lost in the quick tier: sweep the public entry point itself over every width
+        swept_all = true;
+        (0..chunks).into_par_iter().for_each(|ci| {
+            let lo = ci * per;
+            for n in lo..lo + per {
+                do_n(n);
+            }
+            cnt.fetch_add(2 * per as u64, Ordering::Relaxed);
+        });
+    }
     ctx.tr(cnt.load(Ordering::Relaxed));
-    ctx.engine("E3.field-entry-sweep", json!({"entries_checked": cnt.load(Ordering::Relaxed), "all_2^28": full, "forms": ["Reserved", "Named"]}));
+    ctx.engine("E3.field-entry-sweep", json!({"entries_checked": cnt.load(Ordering::Relaxed), "all_2^28": swept_all, "forms": ["Reserved", "Named"],
+        "hook_binding": if diverged.load(Ordering::Relaxed) == 0 { json!("the hook returns byte for byte what Field entries emit") } else { json!({"diverged_entries": diverged.load(Ordering::Relaxed), "first_width": first_div.load(Ordering::Relaxed), "consequence": "the hook sweep does not speak for Field entries; the public entry point was swept over all 2^28 widths instead"}) }}));
 
     // ---- call-site binding: every length-prefixed object kind, every body size 0..=4200 and 2^20 +- 8
     let mut pads: Vec<usize> = (0..=4200).collect();
